@@ -1,12 +1,35 @@
 #!/bin/bash
-# re-evaluates every stored seed against the current checks (quick tier); writes /verif/seeded/SUMMARY.txt
+# re-evaluates every stored seed against the current checks (quick tier).
+#   tools/seedall.sh            all seeds sequentially, then writes seeded/SUMMARY.txt
+#   tools/seedall.sh K N        stream K of N (run N of them in parallel), log /tmp/seedall.K.log
+#   tools/seedall.sh summary    builds seeded/SUMMARY.txt from /tmp/seedall.*.log
 cd /verif
-: > /tmp/seedall.log
 declare -A EXTRA=( [C03-1]="C03,C10" [C04-1]="C04,C05,C10" [C01-4]="C01,C17" [C03-3]="C03,C16" [C04-3]="C04,C19" [C04-4]="C04,C03" [C05-4]="C05,C10" )
+if [ "$1" = summary ]; then
+  cat /tmp/seedall.*.log | grep -E "^C[0-9]+ [0-9]|check" > /tmp/seedall.sum
+  python3 - <<'P'
+import re
+blocks=[];cur=None
+for l in open("/tmp/seedall.sum"):
+    if re.match(r"^C\d+ \d", l): cur=[l]; blocks.append(cur)
+    elif cur is not None: cur.append(l)
+blocks.sort(key=lambda b:(b[0].split()[0], int(b[0].split()[1])))
+open("/verif/seeded/SUMMARY.txt","w").write("".join("".join(b) for b in blocks))
+print(len(blocks),"seeds")
+P
+  rm -f /tmp/seedeval_* /tmp/seedall.sum
+  exit 0
+fi
+K=${1:-0}; N=${2:-1}
+LOG=/tmp/seedall.$K.log
+: > $LOG
+i=0
 for d in seeded/C*-*; do
+  i=$((i+1))
+  [ $((i % N)) -eq $K ] || continue
   b=$(basename $d); id=${b%-*}; n=${b#*-}
   chk=${EXTRA[$b]:-$id}
-  python3 tools/seedeval.py $id $n --checks $chk >> /tmp/seedall.log 2>&1
+  python3 tools/seedeval.py $id $n --checks $chk >> $LOG 2>&1
 done
-grep -E "^C[0-9]+ [0-9]|check" /tmp/seedall.log > seeded/SUMMARY.txt
-rm -f /tmp/seedeval_*
+echo "STREAM-DONE $K" >> $LOG
+[ $N -eq 1 ] && exec "$0" summary
